@@ -25,6 +25,9 @@ inductive Item
   /-- `@import`/`@use`/`@forward`/`meta.load-css` of `url`; `unquoted`: written without quotes
   (only `@import url(..)`) -/
   | load (k : Kind) (url : Str) (unquoted : Bool)
+  /-- `@use "url" as m<j> with ($cfg: 1)` / `@forward "url" with ($cfg: 1)` (`k` is `use` or
+  `forward`) -/
+  | loadWith (k : Kind) (url : Str)
   /-- a style rule `.f<tag>{a:b}` naming the file it is written in -/
   | mark
   /-- `.r<tag>_<j>{v: m<k>.$c<t>}  m<k>.$c<t>: m<k>.$c<t> + 1;` — read and increment the
@@ -50,7 +53,7 @@ inductive Marker
   | cssImport (url : Str)
   deriving DecidableEq, Repr
 
-inductive Err | loop | notFound | fault | format | badBump | fuel
+inductive Err | loop | notFound | fault | format | badBump | fuel | config
   deriving DecidableEq, Repr
 
 structure St where
@@ -198,6 +201,26 @@ def execItem (q : LoadQuirks) (F : Finder) (enter : Str → St → Res) (self : 
       match lock name { s with calls := calls } with
       | none => (.err .loop { s with calls := calls }, b)
       | some s1 => runFound q F enter name j b s1 k
+  | .loadWith k url =>
+    match F.find self k url s.calls with
+    | .fault calls => (.err .fault { s with calls := calls }, b)
+    | .badFormat calls => (.err .format { s with calls := calls }, b)
+    | .missing calls => (.err .notFound { s with calls := calls }, b)
+    | .found name calls =>
+      match lock name { s with calls := calls } with
+      | none => (.err .loop { s with calls := calls }, b)
+      | some s1 =>
+        -- `dest.head().is_loaded(path)` (commit 23c2f01): a loaded module can't be configured —
+        -- checked by `Item::Use` only; `@forward … with` of a loaded module takes the cached one
+        if !q.reconfigureIgnored && k == .use && (s1.modules.lookup name).isSome then
+          (.err .config s1, b)
+        else runFound q F enter name j b s1 k
+
+/-- the load statement an item is, if any -/
+def Item.target : Item → Option (Kind × Str)
+  | .load k url _ => some (k, url)
+  | .loadWith k url => some (k, url)
+  | _ => none
 
 /-- `handle_body`: the statements in order, stopping at the first error -/
 def execItems (q : LoadQuirks) (F : Finder) (enter : Str → St → Res) (self : Str) :
